@@ -67,9 +67,9 @@ func c15(r *Report) propMeta {
 		{Op: "LSS", A: []string{"phi"}, B: []string{"field:ValidatorPrice.Timestamp", "field:Feed.Interval"}, Want: true, Desc: "price deadline later than current (max-update)"}}, [][]string{{"field:ValidatorPrice.BlockHeight"}})
 	r.PhiEdge("block-bound-from-price", cm, hgt, []string{"field:ValidatorPrice.BlockHeight", "field:Feed.Interval"}, []Cond{hasPrice,
 		{Op: "LSS", A: []string{"param:lastUpdateBlock"}, B: []string{"field:ValidatorPrice.BlockHeight", "field:Feed.Interval"}, Want: true, Desc: "price block deadline later than current (max-update)"}}, [][]string{{"field:ValidatorPrice.Timestamp"}})
-	r.Exists("block-divisor-is-constant", cm, RetValEff(0, "binop:/", w.ConstAtom(ft, "MaxGuaranteeBlockTime")), 1)
+	r.Exists("block-divisor-is-constant", cm, DecisionEff(0, "binop:/", w.ConstAtom(ft, "MaxGuaranteeBlockTime")), 1)
 	r.Conjunction("miss-needs-both-bounds", cm, now, hgt)
-	r.CondCount("no-other-branches", cm, 5)
+	r.CondCount("no-other-branches", cm, 6) // 5 branches + the returned second comparison (decisionCount)
 
 	// the clocks CheckMissReport reads are the CHAIN's: the stored price carries block time / height, never the
 	// validator's own message timestamp (seed C15-4)
